@@ -5,6 +5,7 @@ package checkgroup
 
 import (
 	"context"
+	"sync/atomic"
 
 	"github.com/pkg/errors"
 
@@ -96,8 +97,26 @@ func NotMemberFunc(_ context.Context, resultCh chan<- Result) {
 	resultCh <- Result{Membership: NotMember}
 }
 
-func UnknownMemberFunc(_ context.Context, resultCh chan<- Result) {
+func UnknownMemberFunc(ctx context.Context, resultCh chan<- Result) {
+	MarkCutOff(ctx)
 	resultCh <- Result{Membership: MembershipUnknown}
+}
+
+type cutOffKey struct{}
+
+// WithCutOffFlag returns a context that records whether any check below it was
+// cut short by the depth or width limit. A negation must not turn a "not a
+// member" that was produced under such a cut-off into "is a member".
+func WithCutOffFlag(ctx context.Context, flag *atomic.Bool) context.Context {
+	return context.WithValue(ctx, cutOffKey{}, flag)
+}
+
+// MarkCutOff records in the innermost enclosing negation that a check was cut
+// short.
+func MarkCutOff(ctx context.Context) {
+	if flag, ok := ctx.Value(cutOffKey{}).(*atomic.Bool); ok {
+		flag.Store(true)
+	}
 }
 
 // WithEdge adds the edge e to the result of the function.
